@@ -58,7 +58,14 @@ def gen_provisions(rng, W, ind, depth, out, provs, used_nums):
     sub_used = NumSet()
     for _ in range(n):
         r = rng.random()
-        if r < 0.45 and depth < 4:
+        if r < 0.07 and ('subparagraph', 'zz') not in sub_used:
+            # a twin: the very same provision text under many parents of one document (a sub-paragraph quoted again and again) - parsed
+            # alone each time with another prefix, in one process
+            sub_used.add(('subparagraph', 'zz')); sub_used.raw.append(('subparagraph', '(zz)'))
+            tw = Prov('SUBPARA', '(zz)', None, ind + 1); tw.unique = True; tw.start = len(out)
+            out.append('  ' * (ind + 1) + 'SUBPARA (zz) - twin'); out.append('  ' * (ind + 2) + 'the twin provision'); tw.end = len(out)
+            provs.append(tw)
+        elif r < 0.45 and depth < 4:
             gen_provisions(rng, W, ind + 1, depth + 1, out, provs, sub_used)
         elif r < 0.55:
             out.append('  ' * (ind + 1) + 'CROSSHEADING ' + W.words(1, 2))
